@@ -158,17 +158,35 @@ def lattice_case(case):
         return 'overflow:accepted', viol
 
     if kind == 'ioverflow':
-        # sign-magnitude field of w bits: magnitude has w-1 bits, so |val| >= 2^(w-1) does not fit and must be refused;
-        # after the refusal nothing of it may be readable as a value (a refused write leaves at most the sign bit behind)
+        # sign-magnitude field of w bits: magnitude has w-1 bits, so |val| >= 2^(w-1) does not fit and must be refused, and
+        # the refusal leaves the writer where it was
         W = get_bit_writer()
         if off:
             W.write_uint(0, off)
         try:
             W.write_int(val, w)
         except Exception as e:
+            if W.get_pos() != off:
+                bad('int-overflow-residue', 'the refused write_int(%d, %d) left %d bit(s) in the stream (a refused write_uint / set_uint '
+                    'leaves the writer untouched)' % (val, w, W.get_pos() - off))
             return 'ioverflow:refused:' + type(e).__name__, viol
         bad('int-overflow-accepted', 'write_int(%d, %d) was accepted (the magnitude needs more than %d bits)' % (val, w, w - 1))
         return 'ioverflow:accepted', viol
+
+    if kind == 'binlen':
+        # a binary string whose length is not the field width does not fit the field: refused, writer untouched
+        W = get_bit_writer()
+        if off:
+            W.write_uint(0, off)
+        try:
+            W.write('1' * val, 'bin', w)
+        except Exception as e:
+            if W.get_pos() != off:
+                bad('bin-length-residue', 'the refused write of a %d-character binary string into a %d-bit field left %d bit(s)'
+                    % (val, w, W.get_pos() - off))
+            return 'binlen:refused:' + type(e).__name__, viol
+        bad('bin-length-accepted', 'a %d-character binary string was written into a %d-bit field (%d bits written)' % (val, w, W.get_pos() - off))
+        return 'binlen:accepted', viol
 
     if kind == 'setoverflow':
         W = get_bit_writer()
@@ -227,6 +245,12 @@ def lattice_cases():
                 m = (1 << (w - 1)) - 1
                 for v in sorted({0, 1, -1, m, -m, m - 1 if m > 1 else 0}):
                     yield ['int', w, v, off]
+            else:
+                yield ['int', 1, 0, off]              # one bit: the sign alone, the magnitude has no bits
+                for v in (1, -1, 2):
+                    yield ['ioverflow', 1, v, off]
+            for k in sorted({w - 1, w + 1, 1, 2 * w} - {w, 0}):
+                yield ['binlen', w, k, off]
             for v in (1 << w, -1, (1 << w) + 1):
                 yield ['overflow', w, v, off]
                 yield ['setoverflow', w, v, off]
